@@ -96,6 +96,11 @@ static void run_case(cs::Src& s, cs::Ctx& ctx) {
     o.max_depth = 9;
     o.max_children = 2;
   }
+  if (s.chance(1, 8)) {  // containers with 8..40 children (fix / 16-bit count families)
+    o.max_children = 40;
+    o.node_budget = 80;
+    o.max_depth = 2;
+  }
   Val v = gen::gen_value(s, o);
   if (msgpack_only) add_binext(v, s);
   ctx.current_rendering = "value: " + ref::render(v);
